@@ -186,6 +186,7 @@ package data
 //@   requires step == nil || len(step) >= len(nd.OffsetStep)
 //@   requires forall(k, 0, len(nd.OffsetStep), nd.OffsetStep[k] == nd.Offset[k]*nd.Step[k])
 //@   fresh r
+//@   dyntype r nd{t}
 //@   assigns nothing
 //@   ensures [C01.slice-shares] as(r, nd{t}).Impl == nd.Impl
 //@   ensures [C01.slice-start] as(r, nd{t}).Start == nd.Start + idot(loc, nd.OffsetStep, len(loc))
@@ -304,3 +305,12 @@ package data
 // indexing the child with v addresses the parent's element t = loc + v*s:
 //   idot(v, w, n) + idot(loc, os, n) == idot(t, os, n)
 //@ induct [C01.compose-index] (v []int, s []int, loc []int, os []int, w []int, t []int) n : implies(forall(k, 0, n, w[k] == os[k]*s[k] && t[k] == loc[k] + v[k]*s[k]), idot(v, w, n) + idot(loc, os, n) == idot(t, os, n))
+
+// updating one component of an index vector moves the address by delta*stride
+//@ induct [C01.lemma-idot-upd] (a []int, b []int, os []int, m int) n : implies(m >= 0 && forall(k, 0, n, implies(k != m, a[k] == b[k])), idot(b, os, n) == idot(a, os, n) + ite(m < n, (b[m] - a[m])*os[m], 0))
+// a product of ones is one
+//@ induct [C02.lemma-pfrom-ones] (d []int, n int) m : implies(m <= n && forall(k, n-m, n, d[k] == 1), pfrom(d, n-m, n) == 1)
+
+// address of the j-th element of a run that starts at base and advances by step elements of stride os
+//@ specu runaddr(base int, j int, step int, os int) int = base + j*step*os
+
